@@ -179,6 +179,10 @@ def gen_program(r, two=None):
             if st["kind"] == "section":
                 used_sections.add(st["name"])
         lines.append(line)
+    if two is None and lines and "label" not in lines[0] and r.random() < 0.5 and \
+            (lines[0].get("stmt") or {"kind": "x"})["kind"] not in ("org", "section"):
+        lines[0]["label"] = new_label()       # a label at the very first location of the default section (value 0)
+        labels.append(lines[0]["label"])
     prog_flags = set()
     for i in range(len(lines) - 1):
         # the statement a label-only line is parsed together with: the next NON-EMPTY line (blank lines are whitespace)
@@ -330,8 +334,12 @@ def render(prog, r):
                     same = [l for l in nonbss_labels if (label_addr[l] & 0xF0000) == (a & 0xF0000)]
                     other = [l for l in nonbss_labels if (label_addr[l] & 0xF0000) != (a & 0xF0000)]
                     edge = [l for l in nonbss_labels if label_addr[l] == (a & 0xF0000) + 0x10000]
+                    zero = [l for l in other if label_addr[l] == 0]
                     if edge and r.random() < 0.6:
                         l = r.choice(edge)       # first byte of the NEXT page: still another page, must be rejected
+                        xpage.append(i)
+                    elif zero and r.random() < 0.5:
+                        l = r.choice(zero)       # a label whose VALUE is 0, used from another page: rejected like any other
                         xpage.append(i)
                     elif other and r.random() < 0.08:
                         l = r.choice(other)
@@ -588,6 +596,12 @@ def run_shard(spec) -> Result:
             one(prog)
             if i % 5 == 0:
                 history.append("NOP\nBOGUS 1,2\n" if i % 10 == 0 else "L1: JP L1\n defb 1,2,3\n")
+            elif i % 5 in (1, 3):
+                # a call that is REJECTED late (undefined symbol / far-away near target found in pass two) after every line
+                # of a realistic program went through pass one: whatever it cached per line must not reach the next call
+                text, *_ = render(prog, rng(spec["seed"], "c10hist", i))
+                tail = " JP NO_SUCH_LABEL_ANYWHERE\n" if i % 5 == 1 else " .ORG 0x7FFF0\nFARAWAY_: NOP\n .ORG 0x00010\n JP FARAWAY_\n"
+                history.append(tail + text if i % 2 else text + "\n" + tail)
             if len(res.samples) < 2:
                 text, *_ = render(prog, rng(0, "sample"))
                 res.sample({"program": text.split("\n")[:12]})
